@@ -2192,3 +2192,79 @@ func scenOpenVsRetention(e *engineA) error {
 	e.sleepHB(4, 8)
 	return e.finish()
 }
+
+func init() { scenarios["foreign-dialer"] = scenForeignDialer }
+
+// scenForeignDialer (C20 / C17): a node of another cluster that happens to
+// have the node id of this cluster's leader keeps dialling the followers (an
+// address mix-up); every attempt ends at the identity handshake, which is
+// refused. Then this cluster's leader goes away. The refused handshakes must
+// not count as contact from the leader: the followers have to notice that it
+// is gone and elect a new one.
+func scenForeignDialer(e *engineA) error {
+	e.prof = profiles["general"]
+	if err := e.boot(3); err != nil {
+		return err
+	}
+	e.cl.startInfoSampler(e.hb() / 2)
+	l := e.cl.leader()
+	if l == nil {
+		return fmt.Errorf("no leader")
+	}
+	for i := 0; i < 4; i++ {
+		e.cl.fsmOp(1, l, "update")
+	}
+	fs := e.others(l)
+	e.rc.emit(&ev.Rec{K: "fault", Op: "foreign-node-with-the-leaders-id-keeps-dialling", Nid: l.nid})
+	stop := make(chan struct{})
+	var wg sync.WaitGroup
+	var mu sync.Mutex
+	var open []*wirePeer
+	for _, f := range fs {
+		wg.Add(1)
+		go func(f *Node) {
+			defer wg.Done()
+			for {
+				select {
+				case <-stop:
+					return
+				default:
+				}
+				// (cluster 7, same node ids): the handshake names the target it believes to be there
+				// (a refused connection is simply abandoned, not closed: the
+				// follower is not told that "its leader" hung up)
+				if p, _, err := wireDial(e.net, "foreign", l.nid, f.addr, 7, f.nid, e.hb()); err == nil {
+					mu.Lock()
+					open = append(open, p)
+					mu.Unlock()
+				}
+				time.Sleep(e.hb() / 4)
+			}
+		}(f)
+	}
+	e.sleepHB(2, 3)
+	// the leader falls silent (its connections stay open and carry nothing)
+	e.isolate(l, true)
+	elected := e.waitFor(40, func() bool {
+		for _, f := range fs {
+			if info, ok := f.info(false); ok && info.State == raft.Leader {
+				return true
+			}
+		}
+		return false
+	})
+	rec := &ev.Rec{K: "foreign-dialer-outcome", Cid: e.cl.cid, Nid: l.nid, Kind: "leader-elected"}
+	if !elected {
+		rec.Kind = "no-election"
+	}
+	e.rc.emit(rec)
+	close(stop)
+	wg.Wait()
+	for _, p := range open {
+		p.close()
+	}
+	e.isolate(l, false)
+	e.startClients(2, map[string]int{"update": 3, "read": 1})
+	e.sleepHB(3, 6)
+	return e.finish()
+}
